@@ -941,6 +941,29 @@ CHECKS['C11']['note'] = CHECKS['C11']['note'] + (
 CHECKS['C12']['note'] = CHECKS['C12']['note'] + (
     ' Model-compared families use the same sensitivity-envelope tolerance as C11.')
 
+CHECKS['C07']['text'] = CHECKS['C07']['text'].replace(
+    'Huber (tensor space, gamma > 0, float step; gamma = 0 scalar only)',
+    'Huber on tensor spaces: gamma > 0 list-level theorem (huber_list_minimises), gamma = 0 scalar theorem (huber_vi_gamma0); on '
+    'product spaces Huber (including gamma = 0, the isotropic group L1-L2 norm) has NO theorem: the executed model .huberG is '
+    'compared with the code and oracle-tested (edge strata edge/Huber/gamma=0/product*)')
+CHECKS['C07']['note'] = CHECKS['C07']['note'] + (
+    ' An edge-value stream (224 strata: documented boundary values of every parameter, points exactly on ball / box / simplex '
+    'boundaries and kinks, sort ties, zero vectors, one-component product space), an argument-type stream (140 strata) and '
+    'calling-convention / same-instance strata run in every tier; an unhit stratum fails the thorough tier.')
+CHECKS['C17']['note'] = CHECKS['C17']['note'] + (
+    ' Oracle-only strata added after the seed waves: memory layouts (F / strided / slice views) for every method, value histories '
+    'per element (kept results and arrays must never change later), special values (NaN, +-inf, signed zero at every position) on '
+    'every reduction-like path incl. the legacy interface, argument forms of axis / keepdims / dtype / out / indices / initial / '
+    'where; the live fallback of the legacy-table translator probes with NaN / inf too. Fixed: C17-F13 (where= given as an ODL '
+    'element recursed).')
+CHECKS['C08']['note'] = CHECKS['C08']['note'] + (
+    ' Oracle-only streams shared by C08 and C09 (functionals_common.py): history (every sub-expression re-evaluated bitwise after '
+    'derived objects were built), wide (complex, float32, size-1 spaces; three calling conventions of every operator-valued '
+    'attribute), argument forms, validation (50 documented rejections with legal neighbours), defaults computed from the space.')
+CHECKS['C15']['note'] = CHECKS['C15']['note'] + (
+    ' Further strata: memory layouts with layout independence, exhaustive coordinate-aliasing / ownership checks for callables '
+    'returning a coordinate, every vectorisation route with a call history.')
+
 NOT_YET = {}
 
 
